@@ -73,3 +73,18 @@ CHECKS["C13"] = {
         "shared result is C12. Assumes Thread.join/Queue semantics." + TRUSTED
     ),
 }
+
+CHECKS["C18"] = {
+    "technique": "CFG typestate counter + writer/reader table agreement + control-dependence",
+    "text": (
+        "Static rules for StreamResultRouter and StreamToQueue.route_code: a forward-call counter explored over the "
+        "CFG of status() shows exactly one sink receives every event on every path, chosen in the order route-prefix "
+        "rule, test-id rule, fallback; the separator literal and strip length of the consuming rule are checked "
+        "against the writer's prefixing (inverse operations, empty remainder to None); only route_code is rewritten, "
+        "only for a consuming rule; startTestRun/stopTestRun iterate one sink list, add_rule registers iff "
+        "do_start_stop_run and the mid-run start is control-dependent on both flags; the policy table is exact and "
+        "unknown policies raise before any state change. These are per-call invariants that hold for all rule sets "
+        "and histories."
+    ),
+    "note": "Concrete rule sets/events as values are not enumerated; the decided clauses are structural." + TRUSTED,
+}
